@@ -18,10 +18,11 @@ Fixpoint hset (k v : bytes) (h : hdrs) : hdrs :=
   | [] => [(k, v)]
   | (k', v') :: r => if bytes_eqb k k' then (k, v) :: r else (k', v') :: hset k v r
   end.
+(* dict.pop / del: keys are unique in a dict, so removing every entry with the key is the same thing *)
 Fixpoint hdel (k : bytes) (h : hdrs) : hdrs :=
   match h with
   | [] => []
-  | (k', v') :: r => if bytes_eqb k k' then r else (k', v') :: hdel k r
+  | (k', v') :: r => if bytes_eqb k k' then hdel k r else (k', v') :: hdel k r
   end.
 
 Fixpoint assoc {A} (k : bytes) (l : list (bytes * A)) : option A :=
